@@ -44,7 +44,7 @@ func vh_C19_growth() {
 		who := family[vChoice("who", len(family))]
 		switch vChoice("op", 5) {
 		case 0:
-			note(who.MakeSymbol([]string{"pa", "pb", "x", "__gensym5"}[vChoice("name", 4)]), false)
+			note(who.MakeSymbol([]string{"pa", "pb", "x", "__gensym5", ""}[vChoice("name", 5)]), false)
 		case 1:
 			note(who.GenSymbol("__gensym"), true)
 		case 2:
